@@ -41,6 +41,12 @@ func (g *gen) storms() {
 		urls := e.urls[:2]
 		perURL := 1 + r.Intn(2) // writer goroutines per URL
 		sets := 8 + r.Intn(6)
+		if rep%3 == 1 {
+			// eight writers and four readers on ONE url
+			urls = e.urls[:1]
+			perURL = 8
+			sets = 5
+		}
 		var writers []wspec
 		type wjob struct{ ids []int }
 		var jobs []wjob
